@@ -73,7 +73,10 @@ namespace detail
 		GLM_FUNC_QUALIFIER static genType call(genType Source, genType Multiple)
 		{
 			if(Source > genType(0))
-				return Source + (Multiple - std::fmod(Source, Multiple));
+			{
+				genType const Rem = std::fmod(Source, Multiple);
+				return Rem > genType(0) ? Source + (Multiple - Rem) : Source;
+			}
 			else
 				return Source + std::fmod(-Source, Multiple);
 		}
